@@ -1180,7 +1180,17 @@ class MachineNode(StateNode[TContext, TEvent]):
         self.initial_context = raw_context
         #: Upper bound on microsteps when settling transient ("always")
         #: transitions, mirroring XState's `maxIterations` (v5.31.0).
-        self.max_iterations: int = int(config.get("maxIterations", 1000))
+        raw_max_iterations = config.get("maxIterations", 1000)
+        if (
+            isinstance(raw_max_iterations, bool)
+            or not isinstance(raw_max_iterations, int)
+            or raw_max_iterations < 1
+        ):
+            raise InvalidConfigError(
+                f"Machine '{config['id']}' has an invalid 'maxIterations' "
+                f"value {raw_max_iterations!r}. Expected a positive integer."
+            )
+        self.max_iterations: int = raw_max_iterations
         #: Machine-level output declaration, resolved when a top-level final
         #: state is reached.
         self.machine_output: Any = config.get("output")
